@@ -1,3 +1,26 @@
+//! Engine for C01 "Graph optimization preserves model semantics".
+//!
+//! Exhaustive program enumeration (pattern grammar with holes + shape
+//! arithmetic grammar) with a differential oracle between load configurations
+//! of the same real code: {optimize off} is the reference for
+//! {optimize on} x {shape inference off, on, strict}.
+
+mod c01;
+mod exec;
+mod pat_act;
+mod pat_attn;
+mod pat_basic;
+mod pat_layout;
+mod pat_matmul;
+mod pat_norm;
+mod patterns;
+mod prog;
+mod shapegram;
+
 fn main() {
-    vp_core::machinery_error("engine not built yet");
+    let prop = std::env::args().nth(1).unwrap_or_default();
+    match prop.as_str() {
+        "C01" => c01::run(vp_core::Ctx::from_env("C01")),
+        _ => vp_core::machinery_error("mc-optimize: unknown property (expected C01)"),
+    }
 }
